@@ -424,7 +424,11 @@ impl Model {
                 it.ttls.push(e);
             }
         }
-        let mut lo = it.lo;
+        // C05 names the mechanism: "timestamp stamped on every successful set", and bounds an item's life by
+        // "its last successful mutation plus its TTL": an acknowledged append/prepend/incr/decr stores the item
+        // anew, so the mutated item must be visible until now + its TTL (when that TTL is known and no delayed
+        // flush has touched this lifetime; otherwise only the old lower bound can be kept)
+        let mut lo = if !it.flushed && it.ttls.len() == 1 { NEVER } else { it.lo };
         let mut hi = it.hi;
         for t in &it.ttls {
             lo = lo.min(exp_at(self.now, *t));
